@@ -650,9 +650,12 @@ func (d *Decoder) decodeStructTo(v reflect.Value) error {
 }
 
 func (d *Decoder) decodeStructToStruct(v reflect.Value) error {
-	fields := fieldsFor(v.Type())
+	fields, err := fieldsFor(v.Type())
+	if err != nil {
+		return err
+	}
 
-	err := d.attachAnnotations(v)
+	err = d.attachAnnotations(v)
 	if err != nil {
 		return err
 	}
@@ -889,7 +892,10 @@ func (d *Decoder) decodeToStructWithAnnotation(v reflect.Value, valueAcceptableK
 		return err
 	}
 
-	fields := fieldsFor(v.Type())
+	fields, err := fieldsFor(v.Type())
+	if err != nil {
+		return err
+	}
 	for _, field := range fields {
 		if !field.annotations {
 			field := findField(fields, field.name)
@@ -910,7 +916,10 @@ func (d *Decoder) decodeToStructWithAnnotation(v reflect.Value, valueAcceptableK
 }
 
 func (d *Decoder) attachAnnotations(v reflect.Value) error {
-	fields := fieldsFor(v.Type())
+	fields, err := fieldsFor(v.Type())
+	if err != nil {
+		return err
+	}
 	for _, field := range fields {
 		if field.annotations {
 			subValue, err := findSubvalue(v, &field)
@@ -947,7 +956,10 @@ func (d *Decoder) attachAnnotations(v reflect.Value) error {
 // expected struct for decoding Ion values must have only 2 fields: one has `ion:",annotation"`
 // tag, and the other field must be of a type where Ion value can be decoded to.
 func isValidAnnotatableStruct(v reflect.Value, listofkinds []reflect.Kind) (bool, error) {
-	fields := fieldsFor(v.Type())
+	fields, err := fieldsFor(v.Type())
+	if err != nil {
+		return false, err
+	}
 	hasAnnotation := false
 	acceptableValueType := false
 	if len(fields) == 2 {
